@@ -130,6 +130,48 @@ func subjectSet(fn *ssa.Function, p *ssa.Parameter) map[ssa.Value]bool {
 	return set
 }
 
+// guardedNotNumber: instruction at runs only where the instance is known not to be a json.Number: under a test of
+// its type against the json.Number type, under a failed number extraction, or under the classifier's answer "string".
+func (c *Ctx) guardedNotNumber(at ssa.Instruction, isInst func(ssa.Value) bool) bool {
+	jng := c.jsonNumberTypeGlobals()
+	ext := c.NumberExtractor("C08/kind-groups")
+	cls := c.TypeClassifier("C08/kind-groups")
+	for _, g := range guardsOf(at) {
+		for _, v := range append(backSlice(g.Cond, 6), g.Cond) {
+			switch x := v.(type) {
+			case *ssa.BinOp:
+				if x.Op != token.EQL && x.Op != token.NEQ {
+					continue
+				}
+				for _, pair := range [][2]ssa.Value{{x.X, x.Y}, {x.Y, x.X}} {
+					// instance.Type() != jsonNumberType
+					if g2 := loadedFromGlobal(pair[1]); g2 != nil && jng[g2] {
+						if tc, ok := pair[0].(*ssa.Call); ok && core.CalleeKey(&tc.Call) == "reflect.Value.Type" && isInst(tc.Call.Args[0]) && v == g.Cond && g.Pol == (x.Op == token.NEQ) {
+							return true
+						}
+					}
+					// jsonType(instance) == "string"
+					if k, ok := constString(pair[1]); ok && k == "string" && cls != nil && v == g.Cond && g.Pol == (x.Op == token.EQL) {
+						for _, src := range append(traceSources(pair[0]), pair[0]) {
+							if ex, ok := src.(*ssa.Extract); ok {
+								if cc, ok := ex.Tuple.(*ssa.Call); ok && cc.Call.StaticCallee() == cls && isInst(cc.Call.Args[0]) {
+									return true
+								}
+							}
+						}
+					}
+				}
+			case *ssa.Extract:
+				// _, isNum := jsonNumber(instance); !isNum
+				if cc, ok := x.Tuple.(*ssa.Call); ok && ext != nil && cc.Call.StaticCallee() == ext && x.Index == 1 && isInst(cc.Call.Args[0]) && v == g.Cond && !g.Pol && len(guardsOf(cc)) == 0 {
+					return true
+				}
+			}
+		}
+	}
+	return false
+}
+
 func (c *Ctx) jsonNumberTypeGlobals() map[*ssa.Global]bool {
 	out := map[*ssa.Global]bool{}
 	initFn := c.P.SSAPkg.Func("init")
@@ -757,6 +799,8 @@ func ruleC08KindGroups(c *Ctx) {
 		c.R.Check(okSrc, rule, "string-group:subject-is-instance.String()", c.pos(call), "the string keywords measure instance.String() for every value of kind String", "the string measured for minLength/maxLength/pattern is not reflect.Value.String() of the instance (e.g. the result of a type assertion to string): values of a defined string type silently skip the string keywords although `type` reports \"string\"")
 		ks := kf.At(call)
 		c.R.Check(Kinds(kString).SubsetOf(ks) && ks.SubsetOf(Kinds(kString)), rule, "coverage:string-group", c.pos(call), "the string keywords run exactly for kind String", fmt.Sprintf("the string keywords run for instance kinds %s, expected exactly {String}", ks))
+		// ... except for a json.Number, which has kind String and is a number
+		c.R.Check(c.guardedNotNumber(call, isSame), rule, "string-group:not-for-json.Number", c.pos(call), "the string keywords are not applied to a json.Number", "the string keywords are applied to every instance of kind String, json.Number included: a number decoded with UseNumber is measured and matched as text, so {\"maxLength\":3} rejects 12345 carried as a json.Number and accepts it as a float64")
 	})
 	// coverage: the array keywords run for Go arrays and slices alike, the object keywords for maps, the string keywords for strings
 	for _, s := range m.Sites {
